@@ -1,6 +1,7 @@
 //! C09 — serialization round-trips at the advertised size; field encodings are unique.
 mod common;
 mod curves;
+mod io;
 
 use ark_ec::models::short_weierstrass::{Affine as SwAffine, Projective as SwProj, SWCurveConfig, SWFlags};
 use ark_ec::models::twisted_edwards::{Affine as TeAffine, Projective as TeProj, TECurveConfig, TEFlags};
@@ -114,7 +115,7 @@ fn field_roundtrip<F: OracleRepr>(tw: &TowerOf<F>, name: &str, t: &mut Tape<'_>,
     o.show(|| format!("{}: value {:x?} [{}]", name, flat, cls));
     o.class(cls);
     o.nt(!(v.is_zero() || v.is_one()));
-    o.evals(4 + 13);
+    o.evals(4 + 13 + 14);
     for c in [Compress::Yes, Compress::No] {
         let mut bytes = Vec::new();
         if let Err(err) = v.serialize_with_mode(&mut bytes, c) {
@@ -175,6 +176,10 @@ fn field_roundtrip<F: OracleRepr>(tw: &TowerOf<F>, name: &str, t: &mut Tape<'_>,
     rt_flags::<F, HF<7>>(&v, &e, "H7", t)?;
     rt_flags::<F, HF<8>>(&v, &e, "H8", t)?;
     rt_flags::<F, HR3>(&v, &e, "HR3", t)?;
+    // the same value through the convenience spellings, a fixed buffer of the advertised size and partial writers / readers
+    let pw = t.u64();
+    o.class_if(pw & 0xfff != 0, "io-pattern-mixed-chunks");
+    io::spellings::<F>(&v, true, true, "field", pw, &|w: &F| w.to_o() == e && w.canonical())?;
     Ok(())
 }
 
@@ -670,7 +675,7 @@ fn enumerate_sw<P: SWCurveConfig>() -> Vec<Sw<P::BaseField>> {
     out
 }
 
-fn sw_check_point<P: SWCurveConfig>(pt: &Sw<P::BaseField>, insub: bool, lam: &P::BaseField, idx: &P::BaseField, idy: &P::BaseField) -> R
+fn sw_check_point<P: SWCurveConfig>(pt: &Sw<P::BaseField>, insub: bool, lam: &P::BaseField, idx: &P::BaseField, idy: &P::BaseField, pat: u64) -> R
 where
     P::BaseField: OracleRepr,
 {
@@ -731,6 +736,8 @@ where
             }
         }
     }
+    io::spellings::<SwAffine<P>>(&aff, insub, false, "affine", pat, &|q: &SwAffine<P>| sw_from_affine::<P>(q) == *pt)?;
+    io::spellings::<SwProj<P>>(&proj, false, false, "projective", pat.rotate_right(12), &|q: &SwProj<P>| sw_from_proj::<P>(q) == *pt)?;
     Ok(())
 }
 
@@ -790,8 +797,10 @@ where
     o.class_if(insub, "in-subgroup");
     o.nt(pt != Sw::Inf && pt != g);
     o.show(|| format!("{}: {} {:?} insub={} lambda={:?}", name, cls, pt, insub, lam));
-    o.evals(if insub { 8 } else { 4 });
-    sw_check_point::<P>(&pt, insub, &lam, &idx, &idy)
+    o.evals(if insub { 8 + 22 } else { 4 + 20 });
+    let pw = t.u64();
+    o.class_if(pw & 0xfff != 0, "io-pattern-mixed-chunks");
+    sw_check_point::<P>(&pt, insub, &lam, &idx, &idy, pw)
 }
 
 /// exhaustive over a toy curve: tape = [point index, representation]
@@ -812,8 +821,8 @@ where
     o.class_if(matches!(pt, Sw::Aff(_, y) if y.is_zero()), "y=0");
     o.class_if(matches!(pt, Sw::Aff(x, _) if x.is_zero()), "x=0");
     o.show(|| format!("{}: point #{} {:?} insub={} lambda={:?}", name, i, pt, insub, lam));
-    o.evals(if insub { 8 } else { 4 });
-    sw_check_point::<P>(&pt, insub, &lam, &P::BaseField::from(3u64), &lam)
+    o.evals(if insub { 8 + 22 } else { 4 + 20 });
+    sw_check_point::<P>(&pt, insub, &lam, &P::BaseField::from(3u64), &lam, (i as u64).wrapping_mul(0x9e3779b97f4a7c15) >> 20)
 }
 
 fn sw_rels<P: SWCurveConfig>(out: &mut Vec<Rel>, name: &'static str, tier: Tier, weight: u32, toy: bool)
@@ -942,7 +951,7 @@ where
     }
 }
 
-fn te_check_point<P: TECurveConfig>(pt: &Te<P::BaseField>, insub: bool, lam: &P::BaseField) -> R
+fn te_check_point<P: TECurveConfig>(pt: &Te<P::BaseField>, insub: bool, lam: &P::BaseField, pat: u64) -> R
 where
     P::BaseField: OracleRepr,
 {
@@ -1006,6 +1015,8 @@ where
             }
         }
     }
+    io::spellings::<TeAffine<P>>(&aff, insub, false, "affine", pat, &|q: &TeAffine<P>| te_from_affine::<P>(q) == *pt)?;
+    io::spellings::<TeProj<P>>(&proj, false, false, "projective", pat.rotate_right(12), &|q: &TeProj<P>| matches!(te_from_proj::<P>(q), Some((z, true)) if z == *pt))?;
     Ok(())
 }
 
@@ -1058,8 +1069,10 @@ where
     o.class_if(pt.0.is_zero(), "x=0");
     o.nt(pt != te_identity() && pt != g);
     o.show(|| format!("{}: {} {:?} insub={} lambda={:?}", name, cls, pt, insub, lam));
-    o.evals(if insub { 8 } else { 4 });
-    te_check_point::<P>(&pt, insub, &lam)
+    o.evals(if insub { 8 + 22 } else { 4 + 20 });
+    let pw = t.u64();
+    o.class_if(pw & 0xfff != 0, "io-pattern-mixed-chunks");
+    te_check_point::<P>(&pt, insub, &lam, pw)
 }
 
 fn te_all<P: TECurveConfig>(cx: &TeCtx<P>, name: &str, t: &mut Tape<'_>, o: &mut Obs) -> R
@@ -1079,8 +1092,8 @@ where
     o.class_if(pt.0.is_zero(), "x=0");
     o.class_if(pt.1.is_zero(), "y=0");
     o.show(|| format!("{}: point #{} {:?} insub={} lambda={:?}", name, i, pt, insub, lam));
-    o.evals(if insub { 8 } else { 4 });
-    te_check_point::<P>(&pt, insub, &lam)
+    o.evals(if insub { 8 + 22 } else { 4 + 20 });
+    te_check_point::<P>(&pt, insub, &lam, (i as u64).wrapping_mul(0x9e3779b97f4a7c15) >> 20)
 }
 
 fn te_rels<P: TECurveConfig>(out: &mut Vec<Rel>, name: &'static str, tier: Tier, weight: u32, toy: bool)
@@ -1144,12 +1157,14 @@ fn relations(tier: Tier) -> Vec<Rel> {
         };
     }
     for_each_shipped_sw!(sw);
+    for_each_helper_sw!(sw);
     macro_rules! te {
         ($cfg:ty, $name:expr, $z:expr, $w:expr) => {
             te_rels::<$cfg>(&mut out, $name, tier, $w, false);
         };
     }
     for_each_shipped_te!(te);
+    for_each_helper_te!(te);
     macro_rules! toysw {
         ($cfg:ty, $name:expr, $p:expr, $a:expr, $b:expr, $h:expr, $r:expr, $big:expr) => {
             sw_rels::<$cfg>(&mut out, concat!("toy.", $name), tier, 1, true);
@@ -1176,7 +1191,7 @@ fn relations(tier: Tier) -> Vec<Rel> {
 fn main() {
     vh_core::engine::main(PropSpec {
         id: "C09",
-        rule: "Field values come from the edge-biased tower generator (0, 1, p-1, (p±1)/2, R, 2^k±1, edge limbs, uniform; sparse/dense extension elements) over 32 zoo prime fields (0..7 spare bits in the top byte, 1..13 limbs, ten moduli of exactly 8k bits), 14 towers (two harness Fp2 over moduli without spare bits) and are (de)serialized with EmptyFlags, SWFlags, TEFlags, harness flags of 1..8 bits and a restrictive 3-bit flag type. Curve points: identity, generator, sums of multiples of G, points decompressed from edge x (resp. y), points whose y (SW, a = 0: x is a cube root of y^2 - b computed by the harness) resp. x (TE) has its most significant non-zero coefficient equal to (p-1)/2 or (p+1)/2 (the threshold of the sign flag), x=0 / y=0 / 2-torsion / out-of-subgroup points, affine and projective with Z != 1, on 32 shipped SW and 10 shipped TE configurations; every point of 11+7 toy curves over prime fields (incl. the 8-bit prime 251, whose flags need an extra byte) and of 4 toy curves over F_49 / F_343 x 3 representations exhaustively. Uniqueness inputs are derived from an encoding produced by the harness' own encoder: + k p, exactly p, one unused high bit, stray bits in the extra flag byte, invalid flag pattern, bit flip, uniform bytes. Oracles: decode(encode(v)) == v through raw coordinates in all four modes (checked modes only for points known to be in the subgroup), len == serialized_size == (un)compressed_size, flags returned; Ok((v,f)) => serialize_with_flags(v,f) == input byte for byte. Non-trivial: value not in {0, 1, identity, generator}, or an input that differs from the valid encoding; distinct = distinct decoded choice sequences.",
+        rule: "Field values come from the edge-biased tower generator (0, 1, p-1, (p±1)/2, R, 2^k±1, edge limbs, uniform; sparse/dense extension elements) over 32 zoo prime fields (0..7 spare bits in the top byte, 1..13 limbs, ten moduli of exactly 8k bits), 14 towers (two harness Fp2 over moduli without spare bits) and are (de)serialized with EmptyFlags, SWFlags, TEFlags, harness flags of 1..8 bits and a restrictive 3-bit flag type. Curve points: identity, generator, sums of multiples of G, points decompressed from edge x (resp. y), points whose y (SW, a = 0: x is a cube root of y^2 - b computed by the harness) resp. x (TE) has its most significant non-zero coefficient equal to (p-1)/2 or (p+1)/2 (the threshold of the sign flag), x=0 / y=0 / 2-torsion / out-of-subgroup points, affine and projective with Z != 1, on 32 shipped SW and 10 shipped TE configurations plus the 4 SWU-isogenous helper curves of bls12_381 / bls12_377 (WBConfig::IsogenousCurve) and test-curves' secp256k1 and ed_on_bls12_381; every point of 11+7 toy curves over prime fields (incl. the 8-bit prime 251, whose flags need an extra byte) and of 4 toy curves over F_49 / F_343 x 3 representations exhaustively. Uniqueness inputs are derived from an encoding produced by the harness' own encoder: + k p, exactly p, one unused high bit, stray bits in the extra flag byte, invalid flag pattern, bit flip, uniform bytes. Every field value and every point (affine and projective) is additionally sent through the convenience spellings (serialize_compressed/_uncompressed, compressed_size/uncompressed_size, deserialize_compressed/_unchecked, deserialize_uncompressed/_unchecked: round trip, validating spellings only for subgroup points), into a fixed &mut [u8] of exactly serialized_size bytes (must succeed and be filled), into a writer that accepts only k bytes per write call (same bytes) and back through a reader that delivers only k bytes per read call followed by unrelated bytes (same value, exactly the encoding consumed); the four chunk sizes k come from a tape word (1,2,3,5,7,8,9,17; word 0 = 1 byte per call). Oracles: decode(encode(v)) == v through raw coordinates in all four modes (checked modes only for points known to be in the subgroup), len == serialized_size == (un)compressed_size, flags returned; Ok((v,f)) => serialize_with_flags(v,f) == input byte for byte. Non-trivial: value not in {0, 1, identity, generator}, or an input that differs from the valid encoding; distinct = distinct decoded choice sequences.",
         assumptions: &[
             "the byte layout used to build mutated inputs (little-endian coefficients of ceil(bits/8) bytes, the last one of ceil((bits+flag bits)/8) bytes with the flags in its top bits) is the documented one; a mismatch with serialized_size_with_flags is reported as size.layout",
             "points used in checked modes are multiples of the generator computed with a reference double-and-add over Projective::double_in_place/+= (C03's subject)",
